@@ -44,6 +44,7 @@ type LoopInfo struct {
 	variant  []string
 	backSts  []*State
 	rangeIdx *ssa.Alloc
+	mark     int // value of the fresh-symbol counter when the loop was entered
 }
 
 // VC is the verification context of one function under contract.
@@ -84,6 +85,9 @@ type VC struct {
 	specDepth int
 	quants []*quantRec
 	refArr map[string]bool
+	writes []writeRec
+	curBlock *ssa.BasicBlock
+	macros []string
 	curCall *ssa.CallCommon
 	iters map[*ssa.Range]iterInfo
 	exQuants []*quantRec
@@ -143,6 +147,8 @@ func (vc *VC) reset() {
 	vc.notes = nil
 	vc.lets = map[string]Val{}
 	vc.quants = nil
+	vc.writes = nil
+	vc.macros = nil
 	vc.iters = map[*ssa.Range]iterInfo{}
 	vc.exQuants = nil
 	for _, l := range vc.loopList {
@@ -269,6 +275,27 @@ func (vc *VC) heapSet(st *State, name, sort, term string) {
 		vc.arrayOrd = append(vc.arrayOrd, name)
 	}
 	st.heap[name] = vc.forceName("H_"+name, sort, term)
+	vc.noteWrite(name, term)
+}
+
+// writeRec: one heap update, remembered for loop frame inference.
+type writeRec struct {
+	name   string
+	target string // object / region the update touches ("" = unknown: the whole array may change)
+	block  *ssa.BasicBlock
+}
+
+func (vc *VC) noteWrite(name, term string) {
+	if vc.dry {
+		return
+	}
+	tgt := ""
+	if strings.HasPrefix(term, "(store ") {
+		if parts := splitSexp(term); len(parts) == 4 {
+			tgt = parts[2]
+		}
+	}
+	vc.writes = append(vc.writes, writeRec{name, tgt, vc.curBlock})
 }
 
 func arrSort(s string) string  { return "(Array Int " + s + ")" }
